@@ -69,9 +69,14 @@ if __name__ == '__main__':
         rc = main()
     except SystemExit:
         raise
+    except BrokenPipeError:
+        os._exit(1)
     except BaseException as e:   # pylint: disable=broad-except
         print('ANALYSIS-ERROR %s: %s' % (type(e).__name__, e))
         traceback.print_exc()
         rc = 2
-    sys.stdout.flush()
+    try:
+        sys.stdout.flush()
+    except BrokenPipeError:
+        os._exit(rc)
     sys.exit(rc)
